@@ -175,6 +175,7 @@ OBLIGATIONS = (
     + _slices("reshape_eval", "reshape_eval", [(f"r{a}{b}", f"r1 == {a} and r2 == {b}", a + b <= 3) for a in range(3) for b in range(3)], 300,
               ["onnxscript.optimizer._constant_folding:reshape", "onnxscript.optimizer._constant_folding:_same_shape"],
               "rank(x), rank(target value) = {tag}; dims of any kind; unbounded runtime values", True)
-    + _slices("merge_shapes", "merge_shapes", [(f"r{a}", f"r == {a}", a <= 2) for a in range(4)], 300,
+    + _slices("merge_shapes", "merge_shapes", [(f"r{a}", f"r == {a}", a <= 2) for a in range(3)]
+              + [(f"r3.a{k}b{j}", f"r == 3 and a0 == {k} and b0 == {j}", False) for k in range(4) for j in range(4)], 300,
               ["onnxscript.optimizer._constant_folding:_merge_shapes"], "rank {tag}; dims of any kind; unbounded runtime values", True)
 )
